@@ -1,6 +1,7 @@
 import LentilVerif.Lemmas.EnergyPlane
 import LentilVerif.Lemmas.EnergyFft
 import LentilVerif.Lemmas.EnergyPupil
+import LentilVerif.Lemmas.EnergyPupilFft
 import LentilVerif.Lemmas.FourierWiring   -- the dft2 model = the wiring regenerated from fourier.py (theorem: C01.dft2_follows_source_wiring)
 /-! # C05 — propagation conserves energy
 
@@ -203,6 +204,31 @@ theorem propagate_fft_energy_consistent (fs : List (Fld ℂ)) (W0 W1 : ℕ) (dx0
         = arrSum (intensity (R := ℝ) (embedAll fs W0 W1))) :=
   propagate_fft_energy_cons fs W0 W1 dx0 dx1 du0 du1 wl z os shape scratch lam S0 S1 so g h hcons hp hp1 hz hos hS hW hfit hpos hso
 
+/-- non-vacuity of `propagate_fft_energy` *with its equality clause*: the plain call (no shape, no scratch) of a 2 × 2 field on the
+isotropic sampling `dx = du = 1/2` is accepted with grid and output `4 × 4`, and every hypothesis of the theorem is discharged for it —
+so "exactly the input power on the full grid" is a statement about a real instance -/
+example (lam : ℝ) (g : Fld ℂ)
+    (h : propagateFft (K := ℂ) (R := ℝ) 1 [⟨⟨2, 2, fun i j => (i + 2 * j + 1 : ℤ)⟩, 0, 0⟩] false 2 2 (1/2) (1/2) (1/2) (1/2) 1 1 1
+      none none = FftOut.ok lam 4 4 (4, 4) g) :=
+  (propagate_fft_energy [⟨⟨2, 2, fun i j => (i + 2 * j + 1 : ℤ)⟩, 0, 0⟩] 2 2 (1/2) (1/2) (1/2) (1/2) 1 1 1 none none lam 4 4 (4, 4) g h
+    rfl (by norm_num) (by norm_num) (by norm_num) (by decide) (by decide)
+    (by intro f hf; simp only [List.mem_singleton] at hf; subst hf; simp only [Fld.within, Fld.extent, arrayExtent_eq]; decide)
+    (by intro f hf; simp only [List.mem_singleton] at hf; subst hf; decide)
+    (by decide)).2 rfl
+
+/-- non-vacuity of `propagate_fft_energy_consistent` beyond the isotropic case: explicit `shape=(1, 2)`, a dirty 5 × 9 scratch buffer and
+per-axis sampling `du = (1/2, 1/4)` (grid `4 × 8`, `S0·dx0·du0 = S1·dx1·du1` while `dx0·du0 ≠ dx1·du1`; the call is accepted: C09) —
+every hypothesis is discharged and the cropped output holds at most the input power -/
+example (lam : ℝ) (g : Fld ℂ)
+    (h : propagateFft (K := ℂ) (R := ℝ) 1 [⟨⟨2, 2, fun i j => (i + 2 * j + 1 : ℤ)⟩, 0, 0⟩] false 2 2 (1/2) (1/2) (1/2) (1/4) 1 1 1
+      (some (1, 2)) (some ⟨5, 9, fun _ _ => 3⟩) = FftOut.ok lam 4 8 (1, 2) g) :=
+  (propagate_fft_energy_consistent [⟨⟨2, 2, fun i j => (i + 2 * j + 1 : ℤ)⟩, 0, 0⟩] 2 2 (1/2) (1/2) (1/2) (1/4) 1 1 1 (some (1, 2))
+    (some ⟨5, 9, fun _ _ => 3⟩) lam 4 8 (1, 2) g h (Or.inr (by norm_num)) (by norm_num) (by norm_num) (by norm_num) (by decide)
+    (by decide) (by decide)
+    (by intro f hf; simp only [List.mem_singleton] at hf; subst hf; simp only [Fld.within, Fld.extent, arrayExtent_eq]; decide)
+    (by intro f hf; simp only [List.mem_singleton] at hf; subst hf; decide)
+    (by decide)).1
+
 /-- **several fields transform like the wavefront's total field** (linearity + zero-padded embedding): the statement that lets the
 single-array theorems above speak about segmented pupils -/
 theorem fields_transform_as_total (fs : List (Fld ℂ)) (S0 S1 : ℕ) (hfit : ∀ f ∈ fs, Fits f S0 S1) (αr αc : ℝ) (U V : ℤ) :
@@ -324,6 +350,42 @@ theorem normalized_pupil_images_to_p (wl : ℝ) (a : Arr ℂ) (p : ℝ) (hp : 0 
     have hz : a.get i j = 0 := hsupp i j (by simpa using hm)
     show (0 : ℝ) = Complex.normSq (a.get i j * _)
     rw [hz, zero_mul, map_zero]
+
+/-- **a normalised pupil images to total `p` through the FFT propagator too.** The same pupil as in `normalized_pupil_images_to_p`
+(amplitude `normalize_power(a, p)` vanishing outside a monolithic mask whose box spans more than one pixel, any OPD), the fresh
+wavefront times it handed to `propagate_fft` (C09 model) at the same wavelength: whenever the call answers on a sampling that is
+isotropic or consistent with its grid and returns the whole grid `G0 × G1 ≥` plane shape, the image total `Σ|Wavefront.field|²` is
+exactly `p`. Composition of `propagate_fft_energy_consistent`, C07 `plane_multiply_exp` (through `pupil_input_power`) and
+`normalize_power_power`; the fields' positions on the canvas are derived (`pupil_fields_on_canvas`), not assumed. -/
+theorem normalized_pupil_images_to_p_fft (wl : ℝ) (a : Arr ℂ) (p : ℝ) (hp : 0 ≤ p) (opd : Attr ℝ) (S0 S1 : ℕ)
+    (ha0 : a.s0 = S0) (ha1 : a.s1 = S1) (hpow : 0 < arrSum (intensity (R := ℝ) a)) (g : Seg) (hc : g.covers S0 S1)
+    (hsupp : ∀ i j, g.m i j = false → a.get i j = 0)
+    (hbig : g.s.r0 < g.s.r1 ∧ g.s.c0 < g.s.c1 ∧ ¬ (g.s.r1 - g.s.r0 = 1 ∧ g.s.c1 - g.s.c0 = 1))
+    (dx0 dx1 du0 du1 z : ℝ) (os : ℤ) (shape : Option (ℤ × ℤ)) (scratch : Option (Arr ℂ)) (lam : ℝ) (G0 G1 : ℤ) (gout : Fld ℂ)
+    (h : propagateFft 1 (planeMultiply (planePh wl) ⟨.array (normalizePower a p), opd, .segs S0 S1 [g]⟩ [unitField]) false S0 S1
+      dx0 dx1 du0 du1 wl z os shape scratch = FftOut.ok lam G0 G1 (G0, G1) gout)
+    (hcons : dx0 * du0 = dx1 * du1 ∨ (G0 : ℝ) * (dx0 * du0) = (G1 : ℝ) * (dx1 * du1))
+    (hq : dx0 * du0 ≠ 0) (hq1 : dx1 * du1 ≠ 0) (hz : z ≠ 0) (hos : 0 < os) (hG : 0 < G0 ∧ 0 < G1)
+    (hW : (S0 : ℤ) ≤ G0 ∧ (S1 : ℤ) ≤ G1) :
+    ∑ i ∈ range G0.toNat, ∑ j ∈ range G1.toNat, Complex.normSq ((wavefrontField 1 [gout] G0 G1).get i j) = p := by
+  have hon := pupil_fields_on_canvas wl (.array (normalizePower a p)) opd S0 S1 g hc hbig
+  have hE := (propagate_fft_energy_consistent _ S0 S1 dx0 dx1 du0 du1 wl z os shape scratch lam G0 G1 (G0, G1) gout h hcons hq hq1 hz
+    hos hG hW (fun f hf => (hon f hf).1) (fun f hf => (hon f hf).2) hG).2 rfl
+  simp only at hE
+  rw [hE, pupil_input_power wl (.array (normalizePower a p)) opd S0 S1 g hc hbig]
+  refine Eq.trans ?_ (normalize_power_power a p hp hpow)
+  rw [arrSum_eq]
+  have e0 : (intensity (R := ℝ) (normalizePower a p)).s0 = S0 := ha0
+  have e1 : (intensity (R := ℝ) (normalizePower a p)).s1 = S1 := ha1
+  rw [e0, e1]
+  simp only [Int.toNat_natCast]
+  refine sum_congr rfl fun i _ => sum_congr rfl fun j _ => ?_
+  by_cases hm : g.m i j = true
+  · rw [if_pos hm]; rfl
+  · rw [if_neg hm]
+    have hz' : a.get i j = 0 := hsupp i j (by simpa using hm)
+    show (0 : ℝ) = Complex.normSq (a.get i j * _)
+    rw [hz', zero_mul, map_zero]
 
 /-- the window hypothesis `hcover` of the period theorems is met by the plain call: whole output array `K × L`, propagation shape
 `K × L` — the evaluated window is exactly one period -/
